@@ -60,7 +60,8 @@ class G:
             return False
         if prob >= 1:
             return True
-        return self.draw(st.floats(0, 1, allow_nan=False)) < prob
+        # (bounded integers are close to uniform in Hypothesis; floats(0,1) are heavily biased towards 0)
+        return self.draw(st.integers(1, 1000)) <= int(round(prob * 1000))
 
     def pick(self, seq):
         return self.draw(st.sampled_from(list(seq)))
